@@ -286,3 +286,6 @@ def check(ctx):
                        "the driver's concretisation and front-end renderers are correct (regex syntax cross-checked with the specification)",
                        "log level bounds compare MTIN arithmetically for every MTIN 0..15 of a log message (MSTP 0)",
                        "regex classes are limited to contains / prefix / suffix / alternation / any-char over letters"]
+
+# round 6 (DESIGN.md 11.10)
+META["technique"] += ' Payload regex classes include three that start with a group modifier (non-capturing alternation, flag group, named group); DLF payload texts include blanks at their edges.'
